@@ -1158,6 +1158,30 @@ def prefix_cmd_family(seed, n):
 
 
 
+def gguard_family(seed, n, maxlen=4, budget=5000):
+    """a validation (`guard`) attached to a whole group - a plain `construct!(n, v)` or an adjacent one - under a
+    repetition: a later occurrence that is refused fails the run (it is neither dropped nor taken for absence).  The
+    specification sees the validation on the member whose value it looks at; the builder attaches it to the group"""
+    out = []
+    for i in range(n):
+        wrap = ["many", "some", "opt", "one"][i % 4]
+        a = ar("n0", "one", "int", "-n")
+        a["guard"], a["guard_at_group"] = True, True
+        if i % 2 == 0:
+            g = altf("g0", wrap, branch(a, sw("v0", "-v")))
+        else:
+            g = adjf("g0", wrap if wrap != "some" else "many", rf("h0", "one", "--point"), a)
+        g["guard"] = True
+        named = [g] if i % 3 else [sw("o1", "-q"), g]
+        d = mkdef(f"gguard{seed}_{i}", level(named, NOTAIL if i % 4 < 2 else postail(pos("p0", "opt"))), maxlen=maxlen, extras=(),
+                  spells=("sep",), words=("1", "2"))
+        galpha_trim(d, budget)
+        d["alpha"]["words"] = ["1", "2"]
+        d["alpha"]["eqvals"] = ["1", "2"]
+        out.append(d)
+    return out
+
+
 def alt_rep_family(seed, n, maxlen=4, budget=5000):
     """repeated and counted flags as members of the branches of a choice"""
     rnd = random.Random(seed)
